@@ -176,23 +176,27 @@ def judge(kind, cfg, obs, intr: Interrupts):
                     continue        # the same thing seen twice: the drain that never ends *is* the waiting for them
                 if st not in ('terminated', 'killed') and not committed:
                     add('not-terminated-on-second-interrupt', f'worker for {tk} was still executing at the second interrupt and was never terminated', True)
-    # cache consistency: whatever is reported as cached must load correctly
-    lab = labtech.Lab(storage=obs.storage, runner_backend='serial', notebook=False)
-    for i in range(cfg.spec.n):
-        t = obs.built.fresh(i)
-        if not U.CACHEABLE[cfg.spec.types[i]]:
-            continue
-        try:
-            if lab.is_cached(t):
-                r = t._lt.cache.load_result_with_meta(obs.storage, t)
-                ok_vals = [obs.ref.value.get(i)]
-                if i in cfg.precached:
-                    from ..spec import stored_value
-                    ok_vals.append(stored_value(cfg.spec, i, None, 0))     # the entry that was being overwritten
-                if i in obs.ref.value and r.value not in ok_vals:
-                    add('cache-inconsistent', f'node {i} is cached with a wrong value after the interrupt', two)
-        except BaseException as e:  # noqa
-            add('cache-inconsistent', f'node {i} is reported as cached but cannot be loaded ({type(e).__name__})', two)
+    # cache consistency: whatever is reported as cached must load correctly - asked of a fresh Lab and of
+    # the very Lab object that was interrupted (it may remember things about entries it saw before the run)
+    labs = [('a fresh Lab', labtech.Lab(storage=obs.storage, runner_backend='serial', notebook=False))]
+    if getattr(obs, 'lab', None) is not None:
+        labs.append(('the interrupted Lab object', obs.lab))
+    for who, lab in labs:
+        for i in range(cfg.spec.n):
+            t = obs.built.fresh(i)
+            if not U.CACHEABLE[cfg.spec.types[i]]:
+                continue
+            try:
+                if lab.is_cached(t):
+                    r = t._lt.cache.load_result_with_meta(obs.storage, t)
+                    ok_vals = [obs.ref.value.get(i)]
+                    if i in cfg.precached:
+                        from ..spec import stored_value
+                        ok_vals.append(stored_value(cfg.spec, i, None, 0))     # the entry that was being overwritten
+                    if i in obs.ref.value and r.value not in ok_vals:
+                        add('cache-inconsistent', f'node {i} is cached with a wrong value after the interrupt (asked {who})', two)
+            except BaseException as e:  # noqa
+                add('cache-inconsistent', f'node {i} is reported as cached by {who} but cannot be loaded ({type(e).__name__})', two)
     return out
 
 
@@ -305,6 +309,9 @@ def harnesses(tier):
                                     liveness_choice=False), dev))
         out.append((be, e3.E3Config(base=e2.Config(spec=chain, requested=req3, precached=(0, 1, 2), bust_cache=True), backend=be, max_workers=2,
                                     liveness_choice=False), dev))
+    # workers that do not die promptly when terminated (a task with its own SIGTERM handler)
+    out.append(('fork', e3.E3Config(base=e2.Config(spec=mk_spec(((), ()), types=('TA', 'TA')), requested=((0, False), (1, False))), backend='fork', max_workers=2,
+                                    liveness_choice=False, term_slow=True), 0))
     # signal-faithful slice: interrupt instants are the interpreter's real signal-check points (function
     # entry, return of a C call, loop back-edge - also *inside* a statement) plus instants inside the
     # OS-level calls of the parent (Process.start after the worker exists, Queue.get, is_alive, terminate, join)
